@@ -252,17 +252,44 @@ func (c *checkSlot) Check(ctx *base.EntryContext) *base.TokenResult {
 		}
 		panic("vh: rule check slot panic")
 	case "block":
+		// Absent fields (-1) are really absent: the slot uses the shortest reset form that
+		// sets what it has - ResetToBlocked(type), ResetToBlockedWithMessage(type, msg) or
+		// ResetToBlockedWithCause(type, msg, rule, value) - resp. the NewTokenResultBlocked*
+		// constructors, so nothing of an earlier block may shine through.
 		var rule base.SentinelRule
 		if b.B.Rule >= 0 {
 			rule = rulePool[b.B.Rule]
 		}
+		msg := ""
+		if b.B.Msg >= 0 {
+			msg = msgOf(b.B.Msg)
+		}
+		var snap interface{}
+		if b.B.Snap >= 0 {
+			snap = b.B.Snap
+		}
+		bt := base.BlockType(b.B.Type)
+		short := b.B.Rule < 0 && b.B.Snap < 0
 		if style == 0 {
 			// the way the built-in slots do it: mutate the context's pooled result
 			r := ctx.RuleCheckResult
-			r.ResetToBlockedWithCause(base.BlockType(b.B.Type), msgOf(b.B.Msg), rule, b.B.Snap)
+			switch {
+			case short && b.B.Msg < 0:
+				r.ResetToBlocked(bt)
+			case short:
+				r.ResetToBlockedWithMessage(bt, msg)
+			default:
+				r.ResetToBlockedWithCause(bt, msg, rule, snap)
+			}
 			return r
 		}
-		return base.NewTokenResultBlockedWithCause(base.BlockType(b.B.Type), msgOf(b.B.Msg), rule, b.B.Snap)
+		switch {
+		case short && b.B.Msg < 0:
+			return base.NewTokenResultBlocked(bt)
+		case short:
+			return base.NewTokenResultBlockedWithMessage(bt, msg)
+		}
+		return base.NewTokenResultBlockedWithCause(bt, msg, rule, snap)
 	default: // pass
 		if style == 0 {
 			return ctx.RuleCheckResult
@@ -312,7 +339,18 @@ func (r *runner) build() {
 	for ci := range r.c.Chains {
 		if r.c.Chains[ci].Default {
 			hasDefault = true
-			r.chains = append(r.chains, sentinel.GlobalSlotChain())
+			sc := sentinel.GlobalSlotChain()
+			for i := range r.c.Chains[ci].Slots {
+				// a default chain of the case's own (api.BuildDefaultSlotChain()) with additional
+				// recording statistic slots
+				if s := r.c.Chains[ci].Slots[i]; s.ID >= 0 && s.Kind == "stat" {
+					if sc == sentinel.GlobalSlotChain() {
+						sc = sentinel.BuildDefaultSlotChain()
+					}
+					sc.AddStatSlot(&statSlot{r, s})
+				}
+			}
+			r.chains = append(r.chains, sc)
 			continue
 		}
 		sc := base.NewSlotChain()
@@ -479,8 +517,8 @@ func Run(c *Case, clk *vclock.Clock) []Obs {
 				tt = base.Inbound
 			}
 			opts := []sentinel.EntryOption{sentinel.WithTrafficType(tt), sentinel.WithBatchCount(o.Batch), sentinel.WithFlag(o.Flag)}
-			if !c.Chains[o.Chain].Default {
-				// the default chain is reached the way applications reach it: no WithSlotChain option
+			if r.chains[o.Chain] != sentinel.GlobalSlotChain() {
+				// the global chain is reached the way applications reach it: no WithSlotChain option
 				opts = append(opts, sentinel.WithSlotChain(r.chains[o.Chain]))
 			}
 			if len(o.Args) > 0 {
@@ -726,7 +764,14 @@ const (
 var orderSet = []int64{0, 1, 2, 2, 999, 1000, 1000, 1001, 4294967295}
 
 func genBerr(r *rng.R) *Berr {
-	return &Berr{Type: r.Range(0, 7), Msg: r.Range(0, 9), Rule: r.Range(-1, 7), Snap: r.Range(0, 1000)}
+	b := &Berr{Type: r.Range(0, 7), Msg: r.Range(0, 9), Rule: r.Range(-1, 7), Snap: r.Range(0, 1000)}
+	switch r.Intn(4) {
+	case 0: // type only
+		b.Msg, b.Rule, b.Snap = -1, -1, -1
+	case 1: // type and message
+		b.Rule, b.Snap = -1, -1
+	}
+	return b
 }
 
 func genChain(r *rng.R, prof Profile, nextID *int) ChainSpec {
@@ -843,6 +888,21 @@ func genChain(r *rng.R, prof Profile, nextID *int) ChainSpec {
 	return ChainSpec{Slots: slots}
 }
 
+// lateStatSlot is a recording statistic slot ordered behind every counting slot whose callbacks
+// panic for some of the flags.
+func lateStatSlot(r *rng.R, id int) SlotSpec {
+	s := SlotSpec{Kind: "stat", ID: id, Order: uint32(r.PickI(5001, 4294967295))}
+	n := 2 + r.Intn(3)
+	for j := 0; j < n; j++ {
+		k := "ok"
+		if j == 1 || r.Chance(1, 3) {
+			k = "panic"
+		}
+		s.Behs = append(s.Behs, Beh{K: k})
+	}
+	return s
+}
+
 // Gen generates case id.
 func Gen(r *rng.R, id int, prof Profile) *Case {
 	c := &Case{ID: id}
@@ -851,10 +911,24 @@ func Gen(r *rng.R, id int, prof Profile) *Case {
 	next := 0
 	for i := 0; i < nch; i++ {
 		if prof == ProfC01 && i == 0 && r.Chance(3, 5) {
-			c.Chains = append(c.Chains, ChainSpec{Slots: DefaultChainSlots(), Default: true})
+			ch := ChainSpec{Slots: DefaultChainSlots(), Default: true}
+			if r.Chance(1, 4) {
+				// BuildDefaultSlotChain() + a recording statistic slot behind all built-in ones
+				// that panics for some requests
+				next++
+				ch.Slots = append(ch.Slots, lateStatSlot(r, next))
+			}
+			c.Chains = append(c.Chains, ch)
 			continue
 		}
-		c.Chains = append(c.Chains, genChain(r, prof, &next))
+		ch := genChain(r, prof, &next)
+		if prof == ProfC01 && r.Chance(1, 5) {
+			// a recording statistic slot behind stat.DefaultSlot that panics for some requests:
+			// the counting slot has then already counted, and must not be told again
+			next++
+			ch.Slots = append(ch.Slots, lateStatSlot(r, next))
+		}
+		c.Chains = append(c.Chains, ch)
 	}
 	nops := 8 + r.Intn(34)
 	nent := 0
